@@ -8,5 +8,7 @@ CONSTANTS
   ServeFails = TRUE
   DeferUnreport = TRUE
   LockedAdd = TRUE
+  Counting = TRUE
+  TrackKey = "pair"
 INVARIANTS LockNotLeaked NoWedge
 CHECK_DEADLOCK FALSE
